@@ -13,7 +13,7 @@ CLAIMED = {
    ref="DESIGN.md §4 C17"),
  "C12": dict(
    text="Claimed clauses. (a) packet connection read: one recvfrom delivering one datagram of symbolic length 1..65507 from a symbolic source into a buffer of symbolic length 1..70000, inline or deferred start, would-block and errors, 2 poll cycles: exactly one callback per datagram, n = datagram length truncated to the buffer, bytes identical at an arbitrary index, sender IP and port reported. (b) packet connection write: datagram of symbolic length and destination: on success exactly one datagram emitted (retried, never duplicated, after EAGAIN/ENOBUFS) with the caller's length, bytes and destination; nothing emitted otherwise. (c) multicast peer: after the real NewUDPPeer (name resolution arbitrary, every socket call free to fail) and any sequence of 2/4 SetLoop/SetTTL/SetAll calls each succeeding or failing, TTL(), All(), Loop() (once set), LocalAddr() and Outbound() equal the kernel model's stored option values and bound address; Close releases the socket; a failing constructor leaks nothing.",
-   note="NOT APPLICABLE clauses (DESIGN §5): that joined/left/blocked groups and sources filter traffic (done inside the kernel's IP stack; the Go code only forwards arguments to setsockopt), bind forms and interface selection (host state), bursts from several real senders. UDPPeer's own read/write path (SetAsyncReadBuffer) is not covered yet. Known finding KF-C12-1 (inverted loop getter on a fresh peer) is reported as KNOWN-FINDING.",
+   note="NOT APPLICABLE clauses (DESIGN §5): that joined/left/blocked groups and sources filter traffic (done inside the kernel's IP stack; the Go code only forwards arguments to setsockopt), bind forms and interface selection (host state), bursts from several real senders. (d) multicast peer read/write: one callback per datagram with its truncated length and sender, data in the buffer MOST RECENTLY designated (SetAsyncReadBuffer between scheduling and completion), one datagram per successful write with the caller's bytes and destination. Known finding KF-C12-1 (inverted loop getter on a fresh peer) is reported as KNOWN-FINDING.",
    ref="DESIGN.md §4 C12"),
  "C11": dict(
    text="(1) Inductive step of Claim, Commit, Consume, Reset (+FreeSpace/UsedSpace/Full/Size) from an ARBITRARY state of a buffer of any size = m pages, 1 <= m <= 2^28 (symbolic, so every power-of-two and non-power-of-two multiple), with every amount n >= 0 incl. above free/used: the invariant 0<=used<=size, 0<=head,tail<size, tail == (head+used) mod size, used+free == size is re-established; a claim is min(n, free) long, contiguous from &slice[tail], and no byte of it (ring position at an arbitrary offset) lies among the committed-unconsumed bytes; commits occupy consecutive ring positions; Consume frees the oldest bytes. (2) The real constructor on the environment model for every requested size in [-8192, 2^40] with every system call free to fail: accepts exactly the positive sizes, rounds up to a page multiple, maps both halves of the slice from the file, leaves no descriptor / temporary file behind, holds one mapping while alive which Destroy releases (idempotent); every failing path leaves no descriptor, file or mapping.",
@@ -48,8 +48,8 @@ CLAIMED = {
    note="Scheduling a timer from inside its own callback is outside (whether a repeating timer holds a schedule during its callback is undefined); model clock is monotonic; timerfd semantics per vsys/vkernel (settime resets the expiration count, entries of a batch are fixed when epoll_wait returns).",
    ref="DESIGN.md §4 C04"),
  "C14": dict(
-   text="For each copy of the dispatch-limit logic reachable without the multicast peer (file read/write on stream socket, pipe ends and regular file; listener accept; packet conn read/write) one step from an ARBITRARY depth d in [0, MaxCallbackDispatch] (symbolic), which by induction covers chains of any length and any mix: inside every completion callback Dispatched equals the number of callbacks on the stack and is <= the limit, nesting <= limit+1; a callback that starts another operation on a different object nests inline below the limit and is deferred at it; at d = limit the operation is not run synchronously, is armed in the kernel, and when the poller dispatches it completes with the inline result; afterwards the accounting is back to its starting value.",
-   note="multicast.UDPPeer (fifth copy) is not covered (its package is not substituted onto the kernel model yet). Known finding KF-C14-1 (regular files cannot take the deferred path) is reported as KNOWN-FINDING.",
+   text="For each of the five copies of the dispatch-limit logic (file read/write on stream socket, pipe ends and regular file; listener accept; packet conn read/write; multicast peer read/write) one step from an ARBITRARY depth d in [0, MaxCallbackDispatch] (symbolic), which by induction covers chains of any length and any mix: inside every completion callback Dispatched equals the number of callbacks on the stack and is <= the limit, nesting <= limit+1; a callback that starts another operation on a different object nests inline below the limit and is deferred at it; at d = limit the operation is not run synchronously, is armed in the kernel, and when the poller dispatches it completes with the inline result; afterwards the accounting is back to its starting value.",
+   note="All five copies are covered (the UDPPeer one by VerifC14_Peer in package multicast). Known finding KF-C14-1 (regular files cannot take the deferred path) is reported as KNOWN-FINDING.",
    ref="DESIGN.md §4 C14"),
  "C01": dict(
    text="All histories of k=2/3 actions {start read/read-all/write/write-all, Cancel, Close, poll cycle} over two objects (stream socket, pipe read end, pipe write end as file objects) sharing one real IO + epoll poller on the kernel model, started inline or at the dispatch limit, with every kernel outcome (data, EOF, EAGAIN, error), every poll batch of <= 1/2 entries in any order with any mask incl. ERR/HUP (HUP alone on pipes), and completion callbacks that re-issue, cancel or close themselves or the other object; plus both directions armed on one socket followed by k=2/3 further actions. Asserted: each callback at most once; Cancel completes each in-flight operation once with ErrCancelled; nothing invoked after Close returned; every uncompleted operation is armed in sonic's books AND in the kernel's interest list; an ERR/HUP entry completes an in-flight operation.",
@@ -57,7 +57,7 @@ CLAIMED = {
    ref="DESIGN.md §4 C01"),
  "C02": dict(
    text="AsyncRead/AsyncReadAll/AsyncWrite/AsyncWriteAll on the real file code over the real poller and kernel model with buffer length L symbolic in [1,2^31], inline or deferred start, up to 3/4 data-transferring system calls of symbolic sizes with would-block, EOF and errors between them and 3/4 poll cycles: count passed to the callback equals the bytes the model moved, buffer bytes at an arbitrary index equal the delivered stream (reads) / accepted stream equals the caller's bytes (writes), *All succeeds only with n == L, on error n <= transferred, callback at most once, Dispatched restored, nothing pending after completion.",
-   note="More than 3/4 kernel segments per operation is outside the claim (the model prunes them); AsyncAdapter and TLS not covered by this harness.",
+   note="The same four operations on the real AsyncAdapter (scheduled through the poller, net.Conn semantics of the wrapped connection: no would-block, 0 bytes = EOF) with <= 3/4 partial transfers and 5 poll cycles are covered by VerifC02_AdapterRead/Write. More than 3/4 kernel segments per operation is outside the claim (the model prunes them); TLS is not covered.",
    ref="DESIGN.md §4 C02"),
  "C03": dict(
    text="Shadow-ledger harness over the C01 world plus a sonic.Timer and Post: after every step of all histories of k=2/3 actions (start ops on a socket or a REGULAR FILE, Cancel, Close, poll with EINTR allowed, timer arm/cancel, Post) Pending() equals operations in flight (deferred ops + armed timer + posts not run) and Posted() the posts not run; PollOne returns n>0 when it dispatched and ErrTimeout when nothing was ready, never another error; RunPending from every armed configuration of k=2/3 set-up steps returns without error exactly when the ledger is 0, and the kernel model asserts that epoll_wait(-1) is never entered when nothing registered can become ready.",
